@@ -216,6 +216,75 @@ def run(ctx):
             ctx.report('correspondence', f'model Registry.guess = {mres}, implementation chose {got} (per-class answers {specs})',
                        case, found_input=False)
 
+    # ---------------- (A2) conventions derived from the built-in ones: what a class matches depends on the dataset's content
+    # and the class's own declaration only - not on which related class was registered or consulted first
+    from emsarray.conventions.arakawa_c import ArakawaC, ArakawaCGridKind
+    from emsarray.conventions.shoc import ShocStandard
+    K = ArakawaCGridKind
+    namings = {
+        'standard': dict(zip(SHOC8, SHOC8)),
+        'variant': {'y_centre': 'y_center', 'x_centre': 'x_center', 'y_left': 'y_west', 'x_left': 'x_west',
+                    'y_back': 'y_south', 'x_back': 'x_south', 'y_grid': 'y_corner', 'x_grid': 'x_corner'},
+        'plain': {'y_centre': 'lat_face', 'x_centre': 'lon_face', 'y_left': 'lat_left', 'x_left': 'lon_left',
+                  'y_back': 'lat_back', 'x_back': 'lon_back', 'y_grid': 'lat_node', 'x_grid': 'lon_node'},
+    }
+
+    def derived_classes():
+        def names(m):
+            return {K.face: (m['y_centre'], m['x_centre']), K.left: (m['y_left'], m['x_left']),
+                    K.back: (m['y_back'], m['x_back']), K.node: (m['y_grid'], m['x_grid'])}
+
+        class ShocVariant(ShocStandard):
+            coordinate_names = names(namings['variant'])
+
+        class PlainArakawa(ArakawaC):
+            coordinate_names = names(namings['plain'])
+
+        class PlainChild(PlainArakawa):
+            coordinate_names = names(namings['variant'])
+        return {'ShocVariant': (ShocVariant, 'variant'), 'PlainArakawa': (PlainArakawa, 'plain'), 'PlainChild': (PlainChild, 'variant')}
+
+    base = gen.any_dataset(rng, 'shoc_standard', nj=3, ni=3, holes='none', invalid=False).ds
+    dsets = {k: base.rename({a: b for a, b in m.items() if a != b}) for k, m in namings.items()}
+    orders = [p for r in (1, 2, 3) for p in itertools.permutations(['ShocVariant', 'PlainArakawa', 'PlainChild'], r)]
+    visits = list(itertools.permutations(['standard', 'variant', 'plain'], 3))
+    for reg in (orders if not quick else rng.sample(orders, 8)):
+        for visit in (visits if not quick else rng.sample(visits, 3)):
+            classes = derived_classes()            # fresh classes: nothing remembered from an earlier history
+            case = {'registered': list(reg), 'datasets detected in this order': list(visit), 'kind': 'derived conventions'}
+            ctx.case(('derived', reg, visit), True)
+            ctx.count('derived_conventions')
+            with RegistrySnapshot():
+                for nm in reg:
+                    emsarray.conventions.register_convention(classes[nm][0])
+                listed = [classes[nm][0] for nm in reg] + list(registry.entry_point_conventions)
+                for which in visit:
+                    ds = dsets[which].copy()
+                    # by content: an Arakawa class matches (HIGH = 30) exactly when all eight of ITS names are variables
+                    want = None
+                    for c in listed:
+                        mine = next((nam for k_, (cl, nam) in classes.items() if cl is c), 'standard' if c is ShocStandard else None)
+                        if mine is not None:
+                            sp = 30 if all(v in ds.variables for v in namings[mine].values()) else None
+                        else:
+                            sp = attempt(c.check_dataset, ds)
+                            sp = sp[1] if sp[0] == 'ok' else None
+                        if sp is not None and (want is None or sp > want[1]):
+                            want = (c, sp)
+                    with warnings.catch_warnings():
+                        warnings.simplefilter('ignore')
+                        r = attempt(get_dataset_convention, ds)
+                        acc = attempt(lambda: type(ds.ems))
+                    got = r[1] if r[0] == 'ok' else f'error {r[1]}'
+                    if got is not (want[0] if want else None):
+                        ctx.report('property', f'the {which}-named dataset is given to {getattr(got, "__name__", got)}; by its content '
+                                   f'the most specific class listed first is {want[0].__name__ if want else None}', case)
+                        break
+                    if want and (acc[0] != 'ok' or acc[1] is not want[0]):
+                        ctx.report('property', f'dataset.ems of the {which}-named dataset binds {acc[1]}, detection says '
+                                   f'{want[0].__name__}', case)
+                        break
+
     # ---------------- (B) binding histories
     def sequences(maxlen, n0=1):
         """all op sequences whose targets exist when the op runs"""
